@@ -146,6 +146,9 @@ def gen_leaf(rng, nvars, falsy, vocab):
                 ('attr', rng.randrange(nvars), 'size'))
     if k == 'pred':
         return (rng.choice(['pred_fn', 'pred_cls']), rng.randrange(nvars), rng.choice([0, 1, 2]))
+    if k == 'pred1':
+        # predicates with a single argument (function and class form)
+        return (rng.choice(['pred1_fn', 'pred1_cls']), rng.randrange(nvars), 1)
     raise ValueError(k)
 
 
@@ -165,7 +168,7 @@ def gen_cond(rng, nvars, depth, falsy=False, vocab=('cmp', 'name', 'truth', 'cal
 
 
 def vars_of(c):
-    if c[0] in ('attr', 'index', 'call', 'pred_fn', 'pred_cls'):
+    if c[0] in ('attr', 'index', 'call', 'pred_fn', 'pred_cls', 'pred1_fn', 'pred1_cls'):
         return {c[1]}
     if c[0] == 'var':
         return {c[1]}
@@ -199,7 +202,7 @@ def holds(c, env):
         return bool(OPS[c[1]](val(c[2], env), val(c[3], env)))
     if k == 'truth':
         return bool(val(c[1], env))
-    if k in ('pred_fn', 'pred_cls'):
+    if k in ('pred_fn', 'pred_cls', 'pred1_fn', 'pred1_cls'):
         return env[c[1]].size > c[2]
     if k in ('contains', 'in'):
         return val(c[2], env) in val(c[1], env)
@@ -242,6 +245,10 @@ def build(c, xs):
         return is_big_fn(xs[c[1]], limit=c[2])
     if k == 'pred_cls':
         return IsBig(xs[c[1]], limit=c[2])
+    if k == 'pred1_fn':
+        return is_large_fn(xs[c[1]])
+    if k == 'pred1_cls':
+        return IsLarge(xs[c[1]])
     if k == 'contains':
         return contains(build_operand(c[1], xs), build_operand(c[2], xs))
     if k == 'in':
@@ -354,6 +361,21 @@ class EqItem:
 @predicate
 def is_big_fn(o, limit=1):
     return o.size > limit
+
+
+@predicate
+def is_large_fn(o):
+    """a predicate with ONE argument"""
+    return o.size > 1
+
+
+@dataclass(eq=False)
+class IsLarge(Predicate):
+    """a predicate class with ONE field"""
+    obj: object
+
+    def __call__(self):
+        return self.obj.size > 1
 
 
 @predicate
@@ -492,6 +514,22 @@ class PDefHand(PDef):
 
     def __init__(self):
         super().__init__('hand', 3)
+
+
+import abc  # noqa: E402
+
+
+@symbol
+@dataclass(eq=False)
+class PAbc(abc.ABC):
+    """a @symbol class whose metaclass is not `type` itself (abc.ABCMeta): still a class, with subclasses"""
+    name: str = 'abc'
+    size: int = 1
+
+
+@dataclass(eq=False)
+class PAbcSub(PAbc):
+    extra: int = 0
 
 
 @symbol
